@@ -206,6 +206,12 @@ class History:
         code under test and the model use blocking sends, for which the peer keeps reading - no effect on either)"""
         self.jevents.append(dict(k="cap", c=c, n=n))
 
+    def close_at(self, c: int, n: int):
+        """the application calls MessageManager.close() from another thread at the moment the manager is about to carry
+        out its n-th further sendall on connection c (implementation-side event; such histories are impl_only: the
+        model has no second thread)"""
+        self.jevents.append(dict(k="cap", what="close_at", c=c, n=n))
+
     def case_json(self) -> dict:
         return dict(loglevel=self.loglevel, timing=self.timing, timecode=self.timecode, events=self.jevents)
 
